@@ -296,6 +296,12 @@ func streamSyntaxEnum(seed uint64, idx int) caseT {
 // white-space renderings.
 func streamSyntax(seed uint64, idx int) caseT {
 	g := genFor(seed, "syntax", idx)
+	if idx%1500 == 7 {
+		// a syntax error a million bytes into the expression (line kind CB: the worker builds the expression from its size; judged
+		// on the implementation alone: offset, message of MustCompile, caret line of HighlightLocation)
+		n := []int{999998, 999999, 1000000, 1000001, 1 << 21, 3000000}[(idx/1500)%6]
+		return caseT{lines: []string{"CB " + strconv.Itoa(n) + " " + hexField(g.r.pick([]string{" b", "]", ".", " ~", "[", " 'x", ")", "&&"}))}}
+	}
 	var t toks
 	if g.r.chance(60) {
 		// start from a valid expression and damage it
